@@ -1,6 +1,7 @@
 package sim
 
 import (
+	metav1 "k8s.io/apimachinery/pkg/apis/meta/v1"
 	"github.com/DataDog/extendeddaemonset/pkg/controller/utils/comparison"
 	"fmt"
 	"math/rand/v2"
@@ -496,6 +497,11 @@ func (s *Sim) Setup() {
 		if sd.AgeSec >= 0 {
 			o := sd.Object()
 			o.CreationTimestamp.Time = s.Store.Now().Add(-time.Duration(sd.AgeSec) * time.Second)
+			if sd.Terminating {
+				dt := metav1.NewTime(s.Store.Now())
+				o.DeletionTimestamp = &dt
+				o.Finalizers = []string{"example.com/hold"}
+			}
 			s.Store.Inject(o)
 			s.literalQuantities(sd)
 		}
